@@ -18,13 +18,41 @@ import sys
 import traceback
 
 ID = "C06"
-LEVEL_TEXT = "filled in below"
-LEVEL_NOTE = "filled in below"
+LEVEL_TEXT = ("Theorems over heaps of any size and shape (cyclic, dangling, self-importing, aliases walked through, any state of the "
+              "passed-through flags): the nested recursion resolve_target -> _resolve_target -> get_member -> Alias.members -> final_target "
+              "-> target -> resolve_target, the tree recursion of resolve_module_aliases and the resolve_aliases while-loop all return "
+              "with fuel #aliases+1 / 2#aliases+3 / #nodes+1 / #aliases+2; every outcome is success, AliasResolutionError or "
+              "CyclicAliasError; flags are restored and stored links never change. All-or-nothing is refuted on the faithful model "
+              "(two witnesses replayed on the implementation) and proved modulo the two decidable gap predicates; the fixpoint is "
+              "refuted for the return value and proved in conditional form. The model is tied to the code by abstracting the loaded "
+              "tree of every generated package set into a heap term and comparing, operation by operation, unresolved sets, iteration "
+              "counts, per-alias links, flags and dereference outcomes (incl. which alias an AliasResolutionError names).")
+LEVEL_NOTE = ("Modelled and verified: dereferencing/resolution (models.py Alias.*, mixins.py get_member) and resolve_module_aliases / "
+              "resolve_aliases with implicit=True, external=False. NOT modelled: load(), expand_exports, expand_wildcards (their escapes "
+              "and the None>int TypeError are evaluated directly on the implementation and attributed to known findings C06-F1/F2 by "
+              "exception type + raising site + graph predicate); the heap handed to the model is abstracted after wildcard expansion has "
+              "stabilised. C06_fixpoint_partial is partial (conditional on a quiet pass; the unconditional statement modulo the known gaps "
+              "is not proved, only checked at run time on every explored heap). Trusted: Coq kernel, extraction, the tree->heap abstraction "
+              "(Snapshot) and the comparison code in this module.")
 MODEL = ("Model.C06_alias", "run_C06")
 COQ_TARGETS = ["Proofs/C06_alias.vo"]
-RULE = "filled in below"
+RULE = ("import graphs written as packages under the scratch directory and loaded with GriffeLoader(allow_inspection=False): "
+        "(1) every assignment of {nothing, def, from T import n [as name]} to the (module,name) slots of 2 modules x 2 names, T over modules + "
+        "missing module (4096 graphs; quick: seeded sample) and the same with a module alias p.m to walk through (10^4; quick: sample); "
+        "(2) 3 modules x 1 name with one optional binding and one optional wildcard import per module in both orders (sampled); "
+        "(3) seeded random graphs over 5 and 6 modules (defs, from-imports plain/renamed/relative/through a member/missing/other package, "
+        "import [as], wildcards, __all__, a class importing in its body), with and without wildcards; "
+        "(4) random graphs over packages p, q, r loaded in every order of every 2- or 3-subset into one collection (quick: 4 orders each), "
+        "with or without resolve_aliases between loads; then resolve, resolve, dereference every alias, resolve (every third case first "
+        "dereferences lazily one alias at a time, recording links after each). non-trivial = at least one alias or an escape; "
+        "distinct by canonical case value")
+TRUSTED = ["abstraction: Snapshot walks collection.members / Object.members and reads Alias._target, target_path, _passed_through, name; "
+           "aliases manufactured by Alias.members are encoded as (path, member) references",
+           "known-finding attribution of C06-F3/F4 is cross-checked against the extracted model's direct / chains_complete / unique_paths verdicts"]
+ASSUMPTIONS = ["packages are static source trees with __init__.py (no namespace packages, stubs, inspection or external loading)",
+               "resolve_aliases is exercised with implicit=True, external=False"]
 
-ALARM_S = 10
+ALARM_S = 4
 
 
 # --------------------------------------------------------------------------------------------------------------------
@@ -57,7 +85,10 @@ def classify_exc(e: BaseException):
     """Exception -> [type name, griffe function names of the innermost frames (innermost last)]."""
     tb = traceback.extract_tb(e.__traceback__)
     fr = [f.name for f in tb if "/_griffe/" in f.filename]
-    return [type(e).__name__, fr[-6:]]
+    # the recursive call on a wildcard's target module is wrapped in `except (AliasResolutionError, CyclicAliasError)`:
+    # no known escape can pass through it
+    protected = any(f.name == "expand_wildcards" and "expand_wildcards(target" in (f.line or "") for f in tb)
+    return [type(e).__name__, fr, protected]
 
 
 def guarded(fn):
@@ -72,7 +103,9 @@ def guarded(fn):
     except RecursionError:
         return ("recursion",)
     except Exception as e:  # noqa: BLE001
-        return ("raise", classify_exc(e), str(e).replace("\n", " | ")[:200])
+        named = getattr(e, "alias", None) if type(e).__name__ == "AliasResolutionError" else \
+            (list(getattr(e, "chain", [])) if type(e).__name__ == "CyclicAliasError" else None)
+        return ("raise", classify_exc(e), str(e).replace("\n", " | ")[:200], named)
     finally:
         signal.alarm(0)
         signal.signal(signal.SIGALRM, old)
@@ -176,11 +209,20 @@ def run_impl(files: dict, loads: list, root: str, interleave: bool = False, ops=
     rec = {"stage": None, "fail": None, "heap": None, "obs": [], "states": [], "pre_unstable": False, "mid": []}
     loader = griffe.GriffeLoader(search_paths=[root], allow_inspection=False)
     rec["loader"] = loader
+
+    def escaped(stage, r):
+        """Record an escape; abstract the collection as it is now so that the model can confirm the error is genuine."""
+        rec["stage"], rec["fail"] = stage, r
+        try:
+            rec["esc_snap"] = Snapshot(loader)
+        except Exception:  # noqa: BLE001
+            rec["esc_snap"] = None
+        return rec
+
     for k, pkg in enumerate(loads):
         r = guarded(lambda: loader.load(pkg, try_relative_path=False))
         if r[0] != "ok":
-            rec["stage"], rec["fail"] = f"load:{pkg}", r
-            return rec
+            return escaped(f"load:{pkg}", r)
         if interleave and k + 1 < len(loads):
             r = guarded(lambda: loader.resolve_aliases(implicit=True, external=False))
             if r[0] != "ok":
@@ -193,8 +235,7 @@ def run_impl(files: dict, loads: list, root: str, interleave: bool = False, ops=
     for _ in range(4):
         r = guarded(lambda: expand_all(loader))
         if r[0] != "ok":
-            rec["stage"], rec["fail"] = "expand", r
-            return rec
+            return escaped("expand", r)
         cur = structure(loader)
         if cur == prev:
             break
@@ -219,8 +260,8 @@ def run_impl(files: dict, loads: list, root: str, interleave: bool = False, ops=
                 if r[0] != "ok":
                     rec["stage"], rec["fail"] = f"op{len(rec['obs'])}:deref:{snap.nodes[i][1]}", r
                     return rec
-                out.append(r[1])
-            rec["obs"].append(["deref", out])
+                out.append(r[1] if op == "deref" else [r[1], snap.state()])
+            rec["obs"].append([op, out])
         rec["states"].append(snap.state())
     rec["post_structure_same"] = (structure(loader)[0] == snap.collection)
     return rec
@@ -248,12 +289,12 @@ def render_slot(name, opt):
     return [f"from {t} import {n}" + ("" if n == name else f" as {name}")]
 
 
-def exhaustive_chain_graphs(mods, names, extra_targets):
-    """Every assignment of one option to each (module, name) slot."""
+def exhaustive_chain_graphs(mods, names, extra_targets, prelude=None):
+    """Every assignment of one option to each (module, name) slot (after fixed prelude lines, e.g. a module alias)."""
     opts = slot_options(mods, names, extra_targets)
     slots = [(m, n) for m in mods for n in names]
     for choice in itertools.product(range(len(opts)), repeat=len(slots)):
-        files = {m: [] for m in mods}
+        files = {m: list((prelude or {}).get(m, [])) for m in mods}
         for (m, n), c in zip(slots, choice):
             files[m] += render_slot(n, opts[c])
         yield {m: "\n".join(ls) + "\n" for m, ls in files.items()}
@@ -330,3 +371,367 @@ def graph_features(files):
             if isinstance(node, ast.ImportFrom) and any(a.name == "*" for a in node.names):
                 wild.append((m, node.module, node.level))
     return {"wildcards": wild, "has_wildcard": bool(wild)}
+
+
+# --------------------------------------------------------------------------------------------------------------------
+# direct evaluation of the property on the implementation + attribution to known findings
+# --------------------------------------------------------------------------------------------------------------------
+ALIAS_ERRORS = ("AliasResolutionError", "CyclicAliasError")
+DEREF_FRAMES = {"final_target", "target", "resolve_target", "_resolve_target", "members", "get_member", "aliases",
+                "_update_target_aliases", "__init__"}
+NONE_GT_INT = "'>' not supported between instances of 'NoneType' and 'int'"
+
+
+def classify_escape(files, fail):
+    """An exception left load()/expand_wildcards()/resolve_aliases(). Known finding id or None (= new violation)."""
+    if fail[0] != "raise":
+        return None                                   # watchdog / RecursionError are never known
+    etype, frames, through_protected = fail[1]
+    feats = graph_features(files)
+    if not feats["has_wildcard"] or "expand_wildcards" not in frames:
+        return None
+    k = len(frames) - 1 - frames[::-1].index("expand_wildcards")
+    inner = frames[k + 1:]                            # frames below the innermost expand_wildcards
+    if etype in ALIAS_ERRORS and not through_protected and inner and set(inner) <= DEREF_FRAMES | {"_expand_wildcard", "set_member"}:
+        return "C06-F1"
+    if etype == "TypeError" and not inner and NONE_GT_INT in fail[2]:
+        return "C06-F2"
+    return None
+
+
+def escape_confirmation(rec):
+    """A known escape names an alias (AliasResolutionError.alias / first path of CyclicAliasError.chain): if that alias
+    is in the tree, the model must agree that dereferencing it fails on the heap as it is. Returns (heap term, index)."""
+    snap, named = rec.get("esc_snap"), rec["fail"][3]
+    if snap is None or named is None:
+        return None
+    if isinstance(named, list):
+        hits = [i for i in snap.alias_ids() if named and snap.nodes[i][1] == named[0]]
+        if not hits:
+            return None
+        i = hits[0]                                     # members of the tree are numbered before detached aliases
+    else:
+        i = snap.ids.get(id(named))
+        if i is None:
+            return None
+    return (snap.term(), snap.alias_ids().index(i))
+
+
+def stored_chain(snap, i):
+    """Follow the stored links from alias node i on the live objects: (ids of real aliases met, saw a virtual link)."""
+    seen, virt = [], False
+    o = snap.objs[i]
+    for _ in range(4 * len(snap.nodes) + 4):
+        if not o.is_alias:
+            break
+        k = snap.ids.get(id(o))
+        if k is None:
+            virt = True
+        elif k in seen:
+            break
+        else:
+            seen.append(k)
+        if o._target is None:
+            break
+        o = o._target
+    return seen, virt
+
+
+def classify_partial(snap, i):
+    """Alias i has a stored link yet dereferencing it raises (dangling or cyclic chain). Known finding id or None."""
+    chain, virt = stored_chain(snap, i)
+    if virt:
+        return "C06-F4"                               # a link manufactured while walking through an alias member
+    if any(snap.nodes[k][3] for k in chain):
+        return "C06-F3"                               # a link that was stored before any resolution (wildcard expansion)
+    return None
+
+
+def evaluate(ctx, files, loads, rec, case):
+    """The property itself, on the implementation. Returns True when the run is usable for the model comparison."""
+    if rec["stage"]:
+        f = rec["fail"]
+        kind = f[0] if f[0] != "raise" else f[1][0]
+        ctx.observe("escape", f"{rec['stage'].split(':')[0]}:{kind}")
+        fid = classify_escape(files, f)
+        detail = {"stage": rec["stage"], "outcome": f[0], "exception": f[1] if f[0] == "raise" else None,
+                  "message": f[2] if f[0] == "raise" else None}
+        ctx.property_failure(case, detail, finding=fid)
+        if fid == "C06-F1":
+            rec["confirm"] = escape_confirmation(rec)
+            ctx.observe("escape_confirmation", "queued" if rec["confirm"] else "alias-not-in-tree")
+        return False
+    snap, obs, states = rec["snap"], rec["obs"][-4:], rec["states"][-5:]   # the trailing resolve, resolve, deref, resolve
+    ids = snap.alias_ids()
+    derefs = obs[2][1]
+    final = states[2]
+    partial = {}
+    for i, (path, tgt, passed), d in zip(ids, final, derefs):
+        ctx.observe("deref", d[0] + ("/resolved" if tgt else "/unresolved"))
+        if d[0] not in ("ok", "are", "cyc"):
+            ctx.property_failure(case, {"alias": path, "dereference": d}, finding=None)
+        if tgt and d[0] in ("are", "cyc"):
+            partial[path] = classify_partial(snap, i)
+            ctx.observe("partial_chain", partial[path] or "unclassified")
+            ctx.property_failure(case, {"alias": path, "resolved_but": d, "link": tgt}, finding=partial[path])
+    for st in states:
+        for path, _t, passed in st:
+            if passed:
+                ctx.property_failure(case, {"alias": path, "passed_through_flag": "left set"}, finding=None)
+    # fixpoint: the second call returns what the first returned and changes nothing
+    u1, u2, u3 = obs[0][1], obs[1][1], obs[3][1]
+    if states[1] != states[2]:
+        changed = [b[0] for a, b in zip(states[1], states[2]) if a != b]
+        fids = {partial.get(p, "not-partial") for p in changed}
+        fid = sorted(fids)[0] if (fids and None not in fids and "not-partial" not in fids) else None
+        ctx.observe("fixpoint_links", fid or "unclassified")
+        ctx.property_failure(case, {"fixpoint": "second resolve_aliases changed links", "changed": changed,
+                                    "first": states[1], "second": states[2]}, finding=fid)
+    if u1 != u2:
+        extra = set(u1) - set(u2)
+        fids = {partial.get(p, "not-partial") for p in extra}
+        fid = None
+        if set(u2) <= set(u1) and fids and None not in fids and "not-partial" not in fids:
+            fid = sorted(fids)[0]                      # the first call reported resolved-but-dangling aliases as unresolved
+        ctx.observe("fixpoint_return", fid or "unclassified")
+        ctx.property_failure(case, {"fixpoint": "return value", "first": u1, "second": u2}, finding=fid)
+    if obs[1][2] > 2:
+        ctx.property_failure(case, {"fixpoint": "second call needed more than 2 iterations", "iterations": obs[1][2]}, finding=None)
+    ctx.observe("iterations_first", obs[0][2])
+    rec["attributed"] = sorted({f for f in partial.values() if f})
+    return True
+
+
+def expected_trace(rec):
+    out = []
+    for ob, st in zip(rec["obs"], rec["states"][1:]):
+        out.append(ob)
+        out.append(st)
+    return out
+
+
+def normalise_model(mo):
+    out = []
+    for x in mo[2:]:
+        if x and x[0] == "resolve":
+            out.append(["resolve", sorted(set(x[1])), x[2]])
+        else:
+            out.append(x)
+    return out
+
+
+OPS = ["resolve", "resolve", "deref", "resolve"]
+OPS_TRACE = ["deref-trace"] + OPS                     # lazy dereferencing first, one alias at a time
+
+
+def run_batch(ctx, batch, label, use_model=True):
+    """batch: list of (files, loads, interleave). Implementation first, then one model call for the whole batch."""
+    root = str(ctx.scratch / "pk")
+    live = []
+    confirm = []
+    for k, (files, loads, interleave) in enumerate(batch):
+        if len(ctx.prop_failures) >= 20:
+            break                                        # enough new violations to report; do not burn watchdog time
+        ops = OPS_TRACE if k % 3 == 2 else OPS
+        case = {"files": files, "loads": loads, "interleave": interleave, "ops": ops}
+        rec = run_impl(files, loads, root, interleave, ops)
+        rec["ops"] = ops
+        feats = graph_features(files)
+        n_alias = len(rec["snap"].alias_ids()) if rec.get("snap") else 0
+        ctx.case(case, nontrivial=n_alias > 0 or rec["stage"] is not None)
+        ctx.observe("stream", label)
+        ctx.observe("n_aliases", min(n_alias, 12))
+        ctx.observe("wildcards", min(len(feats["wildcards"]), 4))
+        ok = evaluate(ctx, files, loads, rec, case)
+        if not ok:
+            if rec.get("confirm"):
+                confirm.append((case, rec))
+            continue
+        if rec["pre_unstable"] or not rec["post_structure_same"]:
+            ctx.count("not_abstractable")               # the tree kept changing under repeated wildcard expansion
+            continue
+        live.append((case, rec))
+    if use_model and confirm:
+        outs = ctx.model([["run", r["confirm"][0][0], r["confirm"][0][1], ["deref"]] for _, r in confirm])
+        for (case, rec), mo in zip(confirm, outs):
+            d = mo[2][1][rec["confirm"][1]] if (mo and mo[0] != "bad-input" and len(mo) > 2 and mo[2][0] == "deref") else None
+            ctx.observe("escape_confirmed_by_model", str(d[0]) if d else "no-verdict")
+            if d is not None and d[0] == "ok":
+                ctx.property_failure(case, {"escape": rec["fail"][1], "named_alias_dereferences_in_model_to": d,
+                                            "meaning": "the escaping alias error is spurious: the alias it names resolves"}, finding=None)
+    if not use_model or not live:
+        return
+    outs = ctx.model([["run", r["heap"][0], r["heap"][1], r["ops"]] for _, r in live])
+    for (case, rec), mo in zip(live, outs):
+        if not mo or mo[0] == "bad-input" or mo[0][0] != "class":
+            ctx.tie_failure("correspondence", "model rejected the heap term", {"model": mo}, case)
+            continue
+        cls = mo[0][1:]
+        ctx.observe("heap_class(wf,noflag,direct,complete,unique)", "".join(str(c) for c in cls))
+        if cls[0] != 1 or cls[1] != 1:
+            ctx.tie_failure("correspondence", "abstracted heap is not well-formed (wf / no flag raised)", {"class": cls}, case)
+            continue
+        if mo[1] != rec["states"][0]:
+            ctx.tie_failure("correspondence", "heap decoding (state before any operation)", {"model": mo[1], "impl": rec["states"][0]}, case)
+            continue
+        # the Python attribution must agree with the Coq gap predicates: C06_all_or_nothing_modulo_known excludes any
+        # dangling stored link on a heap that is direct, complete and has unique paths
+        att = rec.get("attributed", [])
+        if ("C06-F4" in att and cls[2] == 1) or ("C06-F3" in att and cls[3] == 1) or (att and cls[2:] == [1, 1, 1]):
+            ctx.property_failure(case, {"partial_chain_outside_known_gaps": att, "model_gap_predicates(direct,complete,unique)": cls[2:]}, finding=None)
+        exp, got = expected_trace(rec), normalise_model(mo)
+        if exp != got:
+            first = next(((a, b) for a, b in zip(exp, got) if a != b), (exp[len(got):][:1], got[len(exp):][:1]))
+            ctx.tie_failure("correspondence", "resolve_aliases / final_target (model) vs GriffeLoader", {"impl": first[0], "model": first[1]}, case)
+        ctx.count("model_compared")
+        for tag in ("fuel", "bad"):
+            if any(isinstance(d, list) and d and d[0] == tag for x in got if x and x[0] == "deref" for d in x[1]):
+                ctx.tie_failure("correspondence", f"model hit {tag}", {}, case)
+        # which branches of the model were exercised
+        if cls[2] == 0:
+            ctx.count("walked_through_alias_member")
+        if any(d[0] == "cyc" for d in rec["obs"][-2][1]):
+            ctx.count("cyclic_outcome")
+        if any(d[0] == "are" for d in rec["obs"][-2][1]):
+            ctx.count("dangling_outcome")
+        if any(t and t[0] == "virt" for st in rec["states"] for _, t, _ in st):
+            ctx.count("virtual_link_stored")
+
+
+# --------------------------------------------------------------------------------------------------------------------
+# several packages into one collection
+# --------------------------------------------------------------------------------------------------------------------
+PKG_MODS = {"p": ["p", "p.a"], "q": ["q", "q.a"], "r": ["r"]}
+
+
+def random_multi(rng):
+    mods = [m for ms in PKG_MODS.values() for m in ms]
+    files = random_graph(rng, mods, NAMES, pkgs=("p", "q", "r"), p_wild=0.12, p_through=0.15, maxlines=3)
+    return files
+
+
+def load_orders(rng, quick):
+    perms = [list(p) for k in (2, 3) for p in itertools.permutations(["p", "q", "r"], k)]
+    return perms if not quick else rng.sample(perms, 4)
+
+
+# --------------------------------------------------------------------------------------------------------------------
+# known-finding witnesses (replayed on the implementation on every run)
+# --------------------------------------------------------------------------------------------------------------------
+WITNESSES = {
+    "C06-F1": {"p": "from p.x import *\nfrom p import x\n"},
+    "C06-F2": None,   # filled from findings/C06.json
+    "C06-F3": {"p": "from p.a import *\n", "p.a": "from p.zz import x\n"},
+    "C06-F4": {"p": "import p.b as m\n", "p.b": "from p.zz import x\n", "p.a": "from p.m import x\n"},
+}
+
+
+def replay_witnesses(ctx):
+    root = str(ctx.scratch / "wit")
+    for fid, f in ctx.known.items():
+        files = f.get("witness", {}).get("files") or WITNESSES.get(fid)
+        if not files:
+            continue
+        rec = run_impl(files, f.get("witness", {}).get("loads", ["p"]), root)
+        if fid in ("C06-F1", "C06-F2"):
+            ok = rec["stage"] is not None and classify_escape(files, rec["fail"]) == fid
+        else:
+            ok = False
+            if rec["stage"] is None:
+                snap = rec["snap"]
+                for i, (path, tgt, _), d in zip(snap.alias_ids(), rec["states"][2], rec["obs"][2][1]):
+                    if tgt and d[0] in ("are", "cyc") and classify_partial(snap, i) == fid:
+                        ok = True
+        ctx.witness(fid, ok)
+
+
+def replay_corpus(ctx):
+    import json
+    from pathlib import Path
+    d = Path(__file__).resolve().parents[2] / "corpus" / "C06"
+    batch = []
+    for f in sorted(d.glob("*.json")):
+        c = json.loads(f.read_text())
+        batch.append((c["files"], c.get("loads", ["p"]), bool(c.get("interleave", False))))
+    run_batch(ctx, batch, "corpus")
+
+
+def explore(ctx):
+    logging.getLogger("griffe").setLevel(logging.CRITICAL)
+    logging.getLogger("_griffe").setLevel(logging.CRITICAL)
+    rng = ctx.rng
+    replay_witnesses(ctx)
+    replay_corpus(ctx)
+    # 1. exhaustive chain-level graphs: every (module, name) slot is empty / a definition / `from T import n [as name]`
+    chain2 = list(exhaustive_chain_graphs(["p", "p.a"], ["x", "y"], ["p.zz"]))                    # 8^4 = 4096
+    through = list(exhaustive_chain_graphs(["p", "p.a"], ["x", "y"], ["p.zz", "p.m"], {"p": ["import p.a as m"]}))   # 10^4, p.m is an alias of module p.a
+    if ctx.quick:
+        run_batch(ctx, [(g, ["p"], False) for g in rng.sample(chain2, 1500)], "exhaustive-chain(2x2) sample")
+        run_batch(ctx, [(g, ["p"], False) for g in rng.sample(through, 1200)], "exhaustive-through(2x2) sample")
+    else:
+        ctx.exhaustive = True
+        run_batch(ctx, [(g, ["p"], False) for g in chain2], "exhaustive-chain(2x2)")
+        run_batch(ctx, [(g, ["p"], False) for g in through], "exhaustive-through(2x2)")
+        chain3 = list(exhaustive_chain_graphs(["p", "p.a", "p.b"], ["x"], ["p.zz", "p.m"],
+                                              {"p.b": ["import p.a as m"], "p": ["from p.b import m"]}))   # 7^3, p.m -> p.b.m -> module p.a
+        run_batch(ctx, [(g, ["p"], False) for g in chain3], "exhaustive-chain(3x1)")
+    # 2. exhaustive family with wildcard imports (3 modules, one name, one optional wildcard per module)
+    wf3 = list(wildcard_family(["p", "p.a", "p.b"], "x", ["p", "p.a", "p.b", "p.zz"]))
+    run_batch(ctx, [(g, ["p"], False) for g in (rng.sample(wf3, ctx.budget(1200, 12000)) if len(wf3) > ctx.budget(1200, 12000) else wf3)],
+              "wildcard-family(3x1)")
+    # 3. random graphs, 5 and 6 modules
+    n = ctx.budget(1500, 20000)
+    run_batch(ctx, [(random_graph(rng, MODS5, NAMES), ["p"], False) for _ in range(n)], "random(5 modules)")
+    run_batch(ctx, [(random_graph(rng, MODS5, NAMES, p_wild=0.0, p_through=0.35), ["p"], False) for _ in range(n // 2)],
+              "random(5 modules, no wildcard)")
+    mods6 = MODS5 + ["p.b2"]
+    run_batch(ctx, [(random_graph(rng, mods6, NAMES + ["w"], maxlines=5), ["p"], False) for _ in range(n // 3)], "random(6 modules)")
+    # 4. all load orders of <= 3 packages into one collection, with and without resolution between the loads
+    batch = []
+    for _ in range(ctx.budget(60, 600)):
+        files = random_multi(rng)
+        for order in load_orders(rng, ctx.quick):
+            sub = {m: s for m, s in files.items() if m.split(".")[0] in order}
+            batch.append((sub, order, bool(rng.getrandbits(1))))
+    run_batch(ctx, batch, "load-orders(p,q,r)")
+    if not ctx.quick:
+        sample = []
+        for _ in range(40):
+            rec = run_impl(random_graph(rng, MODS5, NAMES), ["p"], str(ctx.scratch / "pk"))
+            if rec["heap"] is not None:
+                sample.append(["run", rec["heap"][0], rec["heap"][1], OPS])
+        ctx.cross_check_extraction(sample, n=30)
+
+
+def search(ctx):
+    """A tie broke and no failing input is known yet: evaluate the property on the implementation alone, wider."""
+    logging.getLogger("griffe").setLevel(logging.CRITICAL)
+    rng = ctx.rng
+    for g in exhaustive_chain_graphs(["p", "p.a"], ["x", "y"], ["p.zz"]):
+        run_batch(ctx, [(g, ["p"], False)], "search-exhaustive", use_model=False)
+        if ctx.prop_failures:
+            return
+    for _ in range(6000):
+        run_batch(ctx, [(random_graph(rng, MODS5, NAMES), ["p"], False)], "search-random", use_model=False)
+        if ctx.prop_failures:
+            return
+
+
+def replay(ctx, data):
+    case = data.get("failing_input") or {}
+    files = case.get("files")
+    if not files:
+        print("replay names no input:", data.get("no_longer_checks"))
+        return 0
+    logging.getLogger("griffe").setLevel(logging.CRITICAL)
+    for m, s in files.items():
+        print("#", m)
+        print("    " + s.replace("\n", "\n    "))
+    ctx.scratch.mkdir(parents=True, exist_ok=True)
+    rec = run_impl(files, case.get("loads", ["p"]), str(ctx.scratch / "pk"), bool(case.get("interleave")), case.get("ops", OPS))
+    print("stage:", rec["stage"], rec["fail"])
+    for o, st in zip(rec["obs"], rec["states"][1:]):
+        print(o)
+        print("   ", st)
+    shutil.rmtree(ctx.scratch, ignore_errors=True)
+    return 0
